@@ -88,7 +88,7 @@ func runC16(c *Ctx, idx int) {
 	}
 	c.SetInput(func() any { return wit(nil) })
 	for _, algo := range []distiller.PaginationAlgo{distiller.PrevNext, distiller.PageNumber} {
-		cr := c.applyReader(pg.HTML, &distiller.Options{OriginalURL: page, PaginationAlgo: algo})
+		cr := c.applyVariant(pg.HTML, &distiller.Options{OriginalURL: page, PaginationAlgo: algo}, idx)
 		if !c.usable(cr) {
 			continue
 		}
